@@ -11,6 +11,10 @@ import (
 	"strconv"
 	"strings"
 
+	fr_bn254 "github.com/consensys/gnark-crypto/ecc/bn254/fr"
+	fft_bn254 "github.com/consensys/gnark-crypto/ecc/bn254/fr/fft"
+	iop_bn254 "github.com/consensys/gnark-crypto/ecc/bn254/fr/iop"
+	poly_bn254 "github.com/consensys/gnark-crypto/ecc/bn254/fr/polynomial"
 	fr_bls12377 "github.com/consensys/gnark-crypto/ecc/bls12-377/fr"
 	fft_bls12377 "github.com/consensys/gnark-crypto/ecc/bls12-377/fr/fft"
 	iop_bls12377 "github.com/consensys/gnark-crypto/ecc/bls12-377/fr/iop"
@@ -27,10 +31,6 @@ import (
 	fft_bls24317 "github.com/consensys/gnark-crypto/ecc/bls24-317/fr/fft"
 	iop_bls24317 "github.com/consensys/gnark-crypto/ecc/bls24-317/fr/iop"
 	poly_bls24317 "github.com/consensys/gnark-crypto/ecc/bls24-317/fr/polynomial"
-	fr_bn254 "github.com/consensys/gnark-crypto/ecc/bn254/fr"
-	fft_bn254 "github.com/consensys/gnark-crypto/ecc/bn254/fr/fft"
-	iop_bn254 "github.com/consensys/gnark-crypto/ecc/bn254/fr/iop"
-	poly_bn254 "github.com/consensys/gnark-crypto/ecc/bn254/fr/polynomial"
 	fr_bw6633 "github.com/consensys/gnark-crypto/ecc/bw6-633/fr"
 	fft_bw6633 "github.com/consensys/gnark-crypto/ecc/bw6-633/fr/fft"
 	iop_bw6633 "github.com/consensys/gnark-crypto/ecc/bw6-633/fr/iop"
@@ -150,11 +150,25 @@ func (c *c20_bn254) dump(p *iop_bn254.Polynomial) string {
 	return c.showForm(p.Basis, p.Layout) + "/" + c20int(c.shiftOf(p)) + "/" + strconv.FormatInt(int64(p.Size()), 16) + "/" + c.show(p.Coefficients())
 }
 func (c *c20_bn254) newPoly(form, coeffs string) (*iop_bn254.Polynomial, bool) {
+	return c.newPolyDirty(form, coeffs, 0)
+}
+
+// the polynomial is built over a prefix view of a buffer that holds `dirty` more, non-zero, entries behind the view
+// (a chunk h[:n] of a larger vector, a truncated vector): spare capacity with old data
+func (c *c20_bn254) newPolyDirty(form, coeffs string, dirty int) (*iop_bn254.Polynomial, bool) {
 	f, ok := c.form(form)
 	if !ok {
 		return nil, false
 	}
 	v := c.vec(coeffs)
+	if dirty > 0 {
+		buf := make([]fr_bn254.Element, len(v)+dirty)
+		copy(buf, v)
+		for i := len(v); i < len(buf); i++ {
+			buf[i].SetUint64(uint64(0xd1d100 + i))
+		}
+		v = buf[:len(v)]
+	}
 	return iop_bn254.NewPolynomial(&v, f), true
 }
 
@@ -169,6 +183,9 @@ func (c *c20_bn254) scriptD(p *iop_bn254.Polynomial, script string, dom func(int
 	if script == "-" {
 		return p, out, true
 	}
+	var alt *iop_bn254.Polynomial // second object of the script (N, H, x, r)
+	shifted := map[string]*fft_bn254.Domain{}
+	baseDom := dom
 	guard := func(f func() string) (res string) {
 		defer func() {
 			if r := recover(); r != nil {
@@ -212,6 +229,63 @@ func (c *c20_bn254) scriptD(p *iop_bn254.Polynomial, script string, dom func(int
 		case 'Z':
 			z, _ := strconv.ParseInt(rest, 16, 64)
 			p.SetSize(int(z))
+		case 'H':
+			alt = p.ShallowClone()
+		case 'N':
+			// N<form>:<c0>.<c1>.…[+k]: a new object becomes current, the previous one becomes the second object
+			w := strings.SplitN(rest, ":", 2)
+			if len(w) != 2 {
+				return p, out, false
+			}
+			dirty := int64(0)
+			if i := strings.IndexByte(w[1], '+'); i >= 0 {
+				dirty, _ = strconv.ParseInt(w[1][i+1:], 16, 32)
+				w[1] = w[1][:i]
+			}
+			np, ok := c.newPolyDirty(w[0], strings.ReplaceAll(w[1], ".", ","), int(dirty))
+			if !ok {
+				return p, out, false
+			}
+			alt, p = p, np
+		case 'x':
+			if alt == nil {
+				return p, out, false
+			}
+			alt, p = p, alt
+		case 'd':
+			// the following conversions use domains with this coset shift (fft.WithShift)
+			s := parseBig(rest)
+			if s.Sign() == 0 || s.Cmp(c.Q()) >= 0 {
+				return p, out, false
+			}
+			if s.Cmp(c.MulGen()) == 0 {
+				dom = baseDom
+			} else {
+				sh := c.el(rest)
+				dom = func(m int) *fft_bn254.Domain {
+					k := rest + "/" + strconv.Itoa(m)
+					d, ok := shifted[k]
+					if !ok {
+						d = fft_bn254.NewDomain(uint64(1)<<m, fft_bn254.WithShift(sh))
+						shifted[k] = d
+					}
+					return d
+				}
+			}
+		case 'r':
+			// p.ReadFrom(bytes of the second object): the receiver has a past
+			if alt == nil {
+				return p, out, false
+			}
+			var buf bytes.Buffer
+			if _, err := alt.WriteTo(&buf); err != nil {
+				return p, out, false
+			}
+			total := buf.Len()
+			n, err := p.ReadFrom(&buf)
+			if err != nil || int(n) != total {
+				return p, out, false
+			}
 		case 'c':
 			if rest == "" {
 				p = p.Clone()
@@ -265,7 +339,22 @@ func (c *c20_bn254) scriptD(p *iop_bn254.Polynomial, script string, dom func(int
 }
 
 func (c *c20_bn254) Script(form, coeffs, script string) string {
-	p, ok := c.newPoly(form, coeffs)
+	dirty := int64(0)
+	if strings.HasPrefix(script, "D") {
+		// D<k> as the first token: the initial object lives in a buffer with k dirty entries behind it
+		first := script
+		if i := strings.IndexByte(script, ','); i >= 0 {
+			first, script = script[:i], script[i+1:]
+		} else {
+			script = "-"
+		}
+		var err error
+		dirty, err = strconv.ParseInt(first[1:], 16, 32)
+		if err != nil || dirty < 0 || dirty > 1<<12 {
+			return "bad-op"
+		}
+	}
+	p, ok := c.newPolyDirty(form, coeffs, int(dirty))
 	if !ok {
 		return "bad-op"
 	}
@@ -726,11 +815,25 @@ func (c *c20_bls12377) dump(p *iop_bls12377.Polynomial) string {
 	return c.showForm(p.Basis, p.Layout) + "/" + c20int(c.shiftOf(p)) + "/" + strconv.FormatInt(int64(p.Size()), 16) + "/" + c.show(p.Coefficients())
 }
 func (c *c20_bls12377) newPoly(form, coeffs string) (*iop_bls12377.Polynomial, bool) {
+	return c.newPolyDirty(form, coeffs, 0)
+}
+
+// the polynomial is built over a prefix view of a buffer that holds `dirty` more, non-zero, entries behind the view
+// (a chunk h[:n] of a larger vector, a truncated vector): spare capacity with old data
+func (c *c20_bls12377) newPolyDirty(form, coeffs string, dirty int) (*iop_bls12377.Polynomial, bool) {
 	f, ok := c.form(form)
 	if !ok {
 		return nil, false
 	}
 	v := c.vec(coeffs)
+	if dirty > 0 {
+		buf := make([]fr_bls12377.Element, len(v)+dirty)
+		copy(buf, v)
+		for i := len(v); i < len(buf); i++ {
+			buf[i].SetUint64(uint64(0xd1d100 + i))
+		}
+		v = buf[:len(v)]
+	}
 	return iop_bls12377.NewPolynomial(&v, f), true
 }
 
@@ -745,6 +848,9 @@ func (c *c20_bls12377) scriptD(p *iop_bls12377.Polynomial, script string, dom fu
 	if script == "-" {
 		return p, out, true
 	}
+	var alt *iop_bls12377.Polynomial // second object of the script (N, H, x, r)
+	shifted := map[string]*fft_bls12377.Domain{}
+	baseDom := dom
 	guard := func(f func() string) (res string) {
 		defer func() {
 			if r := recover(); r != nil {
@@ -788,6 +894,63 @@ func (c *c20_bls12377) scriptD(p *iop_bls12377.Polynomial, script string, dom fu
 		case 'Z':
 			z, _ := strconv.ParseInt(rest, 16, 64)
 			p.SetSize(int(z))
+		case 'H':
+			alt = p.ShallowClone()
+		case 'N':
+			// N<form>:<c0>.<c1>.…[+k]: a new object becomes current, the previous one becomes the second object
+			w := strings.SplitN(rest, ":", 2)
+			if len(w) != 2 {
+				return p, out, false
+			}
+			dirty := int64(0)
+			if i := strings.IndexByte(w[1], '+'); i >= 0 {
+				dirty, _ = strconv.ParseInt(w[1][i+1:], 16, 32)
+				w[1] = w[1][:i]
+			}
+			np, ok := c.newPolyDirty(w[0], strings.ReplaceAll(w[1], ".", ","), int(dirty))
+			if !ok {
+				return p, out, false
+			}
+			alt, p = p, np
+		case 'x':
+			if alt == nil {
+				return p, out, false
+			}
+			alt, p = p, alt
+		case 'd':
+			// the following conversions use domains with this coset shift (fft.WithShift)
+			s := parseBig(rest)
+			if s.Sign() == 0 || s.Cmp(c.Q()) >= 0 {
+				return p, out, false
+			}
+			if s.Cmp(c.MulGen()) == 0 {
+				dom = baseDom
+			} else {
+				sh := c.el(rest)
+				dom = func(m int) *fft_bls12377.Domain {
+					k := rest + "/" + strconv.Itoa(m)
+					d, ok := shifted[k]
+					if !ok {
+						d = fft_bls12377.NewDomain(uint64(1)<<m, fft_bls12377.WithShift(sh))
+						shifted[k] = d
+					}
+					return d
+				}
+			}
+		case 'r':
+			// p.ReadFrom(bytes of the second object): the receiver has a past
+			if alt == nil {
+				return p, out, false
+			}
+			var buf bytes.Buffer
+			if _, err := alt.WriteTo(&buf); err != nil {
+				return p, out, false
+			}
+			total := buf.Len()
+			n, err := p.ReadFrom(&buf)
+			if err != nil || int(n) != total {
+				return p, out, false
+			}
 		case 'c':
 			if rest == "" {
 				p = p.Clone()
@@ -841,7 +1004,22 @@ func (c *c20_bls12377) scriptD(p *iop_bls12377.Polynomial, script string, dom fu
 }
 
 func (c *c20_bls12377) Script(form, coeffs, script string) string {
-	p, ok := c.newPoly(form, coeffs)
+	dirty := int64(0)
+	if strings.HasPrefix(script, "D") {
+		// D<k> as the first token: the initial object lives in a buffer with k dirty entries behind it
+		first := script
+		if i := strings.IndexByte(script, ','); i >= 0 {
+			first, script = script[:i], script[i+1:]
+		} else {
+			script = "-"
+		}
+		var err error
+		dirty, err = strconv.ParseInt(first[1:], 16, 32)
+		if err != nil || dirty < 0 || dirty > 1<<12 {
+			return "bad-op"
+		}
+	}
+	p, ok := c.newPolyDirty(form, coeffs, int(dirty))
 	if !ok {
 		return "bad-op"
 	}
@@ -1302,11 +1480,25 @@ func (c *c20_bls12381) dump(p *iop_bls12381.Polynomial) string {
 	return c.showForm(p.Basis, p.Layout) + "/" + c20int(c.shiftOf(p)) + "/" + strconv.FormatInt(int64(p.Size()), 16) + "/" + c.show(p.Coefficients())
 }
 func (c *c20_bls12381) newPoly(form, coeffs string) (*iop_bls12381.Polynomial, bool) {
+	return c.newPolyDirty(form, coeffs, 0)
+}
+
+// the polynomial is built over a prefix view of a buffer that holds `dirty` more, non-zero, entries behind the view
+// (a chunk h[:n] of a larger vector, a truncated vector): spare capacity with old data
+func (c *c20_bls12381) newPolyDirty(form, coeffs string, dirty int) (*iop_bls12381.Polynomial, bool) {
 	f, ok := c.form(form)
 	if !ok {
 		return nil, false
 	}
 	v := c.vec(coeffs)
+	if dirty > 0 {
+		buf := make([]fr_bls12381.Element, len(v)+dirty)
+		copy(buf, v)
+		for i := len(v); i < len(buf); i++ {
+			buf[i].SetUint64(uint64(0xd1d100 + i))
+		}
+		v = buf[:len(v)]
+	}
 	return iop_bls12381.NewPolynomial(&v, f), true
 }
 
@@ -1321,6 +1513,9 @@ func (c *c20_bls12381) scriptD(p *iop_bls12381.Polynomial, script string, dom fu
 	if script == "-" {
 		return p, out, true
 	}
+	var alt *iop_bls12381.Polynomial // second object of the script (N, H, x, r)
+	shifted := map[string]*fft_bls12381.Domain{}
+	baseDom := dom
 	guard := func(f func() string) (res string) {
 		defer func() {
 			if r := recover(); r != nil {
@@ -1364,6 +1559,63 @@ func (c *c20_bls12381) scriptD(p *iop_bls12381.Polynomial, script string, dom fu
 		case 'Z':
 			z, _ := strconv.ParseInt(rest, 16, 64)
 			p.SetSize(int(z))
+		case 'H':
+			alt = p.ShallowClone()
+		case 'N':
+			// N<form>:<c0>.<c1>.…[+k]: a new object becomes current, the previous one becomes the second object
+			w := strings.SplitN(rest, ":", 2)
+			if len(w) != 2 {
+				return p, out, false
+			}
+			dirty := int64(0)
+			if i := strings.IndexByte(w[1], '+'); i >= 0 {
+				dirty, _ = strconv.ParseInt(w[1][i+1:], 16, 32)
+				w[1] = w[1][:i]
+			}
+			np, ok := c.newPolyDirty(w[0], strings.ReplaceAll(w[1], ".", ","), int(dirty))
+			if !ok {
+				return p, out, false
+			}
+			alt, p = p, np
+		case 'x':
+			if alt == nil {
+				return p, out, false
+			}
+			alt, p = p, alt
+		case 'd':
+			// the following conversions use domains with this coset shift (fft.WithShift)
+			s := parseBig(rest)
+			if s.Sign() == 0 || s.Cmp(c.Q()) >= 0 {
+				return p, out, false
+			}
+			if s.Cmp(c.MulGen()) == 0 {
+				dom = baseDom
+			} else {
+				sh := c.el(rest)
+				dom = func(m int) *fft_bls12381.Domain {
+					k := rest + "/" + strconv.Itoa(m)
+					d, ok := shifted[k]
+					if !ok {
+						d = fft_bls12381.NewDomain(uint64(1)<<m, fft_bls12381.WithShift(sh))
+						shifted[k] = d
+					}
+					return d
+				}
+			}
+		case 'r':
+			// p.ReadFrom(bytes of the second object): the receiver has a past
+			if alt == nil {
+				return p, out, false
+			}
+			var buf bytes.Buffer
+			if _, err := alt.WriteTo(&buf); err != nil {
+				return p, out, false
+			}
+			total := buf.Len()
+			n, err := p.ReadFrom(&buf)
+			if err != nil || int(n) != total {
+				return p, out, false
+			}
 		case 'c':
 			if rest == "" {
 				p = p.Clone()
@@ -1417,7 +1669,22 @@ func (c *c20_bls12381) scriptD(p *iop_bls12381.Polynomial, script string, dom fu
 }
 
 func (c *c20_bls12381) Script(form, coeffs, script string) string {
-	p, ok := c.newPoly(form, coeffs)
+	dirty := int64(0)
+	if strings.HasPrefix(script, "D") {
+		// D<k> as the first token: the initial object lives in a buffer with k dirty entries behind it
+		first := script
+		if i := strings.IndexByte(script, ','); i >= 0 {
+			first, script = script[:i], script[i+1:]
+		} else {
+			script = "-"
+		}
+		var err error
+		dirty, err = strconv.ParseInt(first[1:], 16, 32)
+		if err != nil || dirty < 0 || dirty > 1<<12 {
+			return "bad-op"
+		}
+	}
+	p, ok := c.newPolyDirty(form, coeffs, int(dirty))
 	if !ok {
 		return "bad-op"
 	}
@@ -1878,11 +2145,25 @@ func (c *c20_bls24315) dump(p *iop_bls24315.Polynomial) string {
 	return c.showForm(p.Basis, p.Layout) + "/" + c20int(c.shiftOf(p)) + "/" + strconv.FormatInt(int64(p.Size()), 16) + "/" + c.show(p.Coefficients())
 }
 func (c *c20_bls24315) newPoly(form, coeffs string) (*iop_bls24315.Polynomial, bool) {
+	return c.newPolyDirty(form, coeffs, 0)
+}
+
+// the polynomial is built over a prefix view of a buffer that holds `dirty` more, non-zero, entries behind the view
+// (a chunk h[:n] of a larger vector, a truncated vector): spare capacity with old data
+func (c *c20_bls24315) newPolyDirty(form, coeffs string, dirty int) (*iop_bls24315.Polynomial, bool) {
 	f, ok := c.form(form)
 	if !ok {
 		return nil, false
 	}
 	v := c.vec(coeffs)
+	if dirty > 0 {
+		buf := make([]fr_bls24315.Element, len(v)+dirty)
+		copy(buf, v)
+		for i := len(v); i < len(buf); i++ {
+			buf[i].SetUint64(uint64(0xd1d100 + i))
+		}
+		v = buf[:len(v)]
+	}
 	return iop_bls24315.NewPolynomial(&v, f), true
 }
 
@@ -1897,6 +2178,9 @@ func (c *c20_bls24315) scriptD(p *iop_bls24315.Polynomial, script string, dom fu
 	if script == "-" {
 		return p, out, true
 	}
+	var alt *iop_bls24315.Polynomial // second object of the script (N, H, x, r)
+	shifted := map[string]*fft_bls24315.Domain{}
+	baseDom := dom
 	guard := func(f func() string) (res string) {
 		defer func() {
 			if r := recover(); r != nil {
@@ -1940,6 +2224,63 @@ func (c *c20_bls24315) scriptD(p *iop_bls24315.Polynomial, script string, dom fu
 		case 'Z':
 			z, _ := strconv.ParseInt(rest, 16, 64)
 			p.SetSize(int(z))
+		case 'H':
+			alt = p.ShallowClone()
+		case 'N':
+			// N<form>:<c0>.<c1>.…[+k]: a new object becomes current, the previous one becomes the second object
+			w := strings.SplitN(rest, ":", 2)
+			if len(w) != 2 {
+				return p, out, false
+			}
+			dirty := int64(0)
+			if i := strings.IndexByte(w[1], '+'); i >= 0 {
+				dirty, _ = strconv.ParseInt(w[1][i+1:], 16, 32)
+				w[1] = w[1][:i]
+			}
+			np, ok := c.newPolyDirty(w[0], strings.ReplaceAll(w[1], ".", ","), int(dirty))
+			if !ok {
+				return p, out, false
+			}
+			alt, p = p, np
+		case 'x':
+			if alt == nil {
+				return p, out, false
+			}
+			alt, p = p, alt
+		case 'd':
+			// the following conversions use domains with this coset shift (fft.WithShift)
+			s := parseBig(rest)
+			if s.Sign() == 0 || s.Cmp(c.Q()) >= 0 {
+				return p, out, false
+			}
+			if s.Cmp(c.MulGen()) == 0 {
+				dom = baseDom
+			} else {
+				sh := c.el(rest)
+				dom = func(m int) *fft_bls24315.Domain {
+					k := rest + "/" + strconv.Itoa(m)
+					d, ok := shifted[k]
+					if !ok {
+						d = fft_bls24315.NewDomain(uint64(1)<<m, fft_bls24315.WithShift(sh))
+						shifted[k] = d
+					}
+					return d
+				}
+			}
+		case 'r':
+			// p.ReadFrom(bytes of the second object): the receiver has a past
+			if alt == nil {
+				return p, out, false
+			}
+			var buf bytes.Buffer
+			if _, err := alt.WriteTo(&buf); err != nil {
+				return p, out, false
+			}
+			total := buf.Len()
+			n, err := p.ReadFrom(&buf)
+			if err != nil || int(n) != total {
+				return p, out, false
+			}
 		case 'c':
 			if rest == "" {
 				p = p.Clone()
@@ -1993,7 +2334,22 @@ func (c *c20_bls24315) scriptD(p *iop_bls24315.Polynomial, script string, dom fu
 }
 
 func (c *c20_bls24315) Script(form, coeffs, script string) string {
-	p, ok := c.newPoly(form, coeffs)
+	dirty := int64(0)
+	if strings.HasPrefix(script, "D") {
+		// D<k> as the first token: the initial object lives in a buffer with k dirty entries behind it
+		first := script
+		if i := strings.IndexByte(script, ','); i >= 0 {
+			first, script = script[:i], script[i+1:]
+		} else {
+			script = "-"
+		}
+		var err error
+		dirty, err = strconv.ParseInt(first[1:], 16, 32)
+		if err != nil || dirty < 0 || dirty > 1<<12 {
+			return "bad-op"
+		}
+	}
+	p, ok := c.newPolyDirty(form, coeffs, int(dirty))
 	if !ok {
 		return "bad-op"
 	}
@@ -2454,11 +2810,25 @@ func (c *c20_bls24317) dump(p *iop_bls24317.Polynomial) string {
 	return c.showForm(p.Basis, p.Layout) + "/" + c20int(c.shiftOf(p)) + "/" + strconv.FormatInt(int64(p.Size()), 16) + "/" + c.show(p.Coefficients())
 }
 func (c *c20_bls24317) newPoly(form, coeffs string) (*iop_bls24317.Polynomial, bool) {
+	return c.newPolyDirty(form, coeffs, 0)
+}
+
+// the polynomial is built over a prefix view of a buffer that holds `dirty` more, non-zero, entries behind the view
+// (a chunk h[:n] of a larger vector, a truncated vector): spare capacity with old data
+func (c *c20_bls24317) newPolyDirty(form, coeffs string, dirty int) (*iop_bls24317.Polynomial, bool) {
 	f, ok := c.form(form)
 	if !ok {
 		return nil, false
 	}
 	v := c.vec(coeffs)
+	if dirty > 0 {
+		buf := make([]fr_bls24317.Element, len(v)+dirty)
+		copy(buf, v)
+		for i := len(v); i < len(buf); i++ {
+			buf[i].SetUint64(uint64(0xd1d100 + i))
+		}
+		v = buf[:len(v)]
+	}
 	return iop_bls24317.NewPolynomial(&v, f), true
 }
 
@@ -2473,6 +2843,9 @@ func (c *c20_bls24317) scriptD(p *iop_bls24317.Polynomial, script string, dom fu
 	if script == "-" {
 		return p, out, true
 	}
+	var alt *iop_bls24317.Polynomial // second object of the script (N, H, x, r)
+	shifted := map[string]*fft_bls24317.Domain{}
+	baseDom := dom
 	guard := func(f func() string) (res string) {
 		defer func() {
 			if r := recover(); r != nil {
@@ -2516,6 +2889,63 @@ func (c *c20_bls24317) scriptD(p *iop_bls24317.Polynomial, script string, dom fu
 		case 'Z':
 			z, _ := strconv.ParseInt(rest, 16, 64)
 			p.SetSize(int(z))
+		case 'H':
+			alt = p.ShallowClone()
+		case 'N':
+			// N<form>:<c0>.<c1>.…[+k]: a new object becomes current, the previous one becomes the second object
+			w := strings.SplitN(rest, ":", 2)
+			if len(w) != 2 {
+				return p, out, false
+			}
+			dirty := int64(0)
+			if i := strings.IndexByte(w[1], '+'); i >= 0 {
+				dirty, _ = strconv.ParseInt(w[1][i+1:], 16, 32)
+				w[1] = w[1][:i]
+			}
+			np, ok := c.newPolyDirty(w[0], strings.ReplaceAll(w[1], ".", ","), int(dirty))
+			if !ok {
+				return p, out, false
+			}
+			alt, p = p, np
+		case 'x':
+			if alt == nil {
+				return p, out, false
+			}
+			alt, p = p, alt
+		case 'd':
+			// the following conversions use domains with this coset shift (fft.WithShift)
+			s := parseBig(rest)
+			if s.Sign() == 0 || s.Cmp(c.Q()) >= 0 {
+				return p, out, false
+			}
+			if s.Cmp(c.MulGen()) == 0 {
+				dom = baseDom
+			} else {
+				sh := c.el(rest)
+				dom = func(m int) *fft_bls24317.Domain {
+					k := rest + "/" + strconv.Itoa(m)
+					d, ok := shifted[k]
+					if !ok {
+						d = fft_bls24317.NewDomain(uint64(1)<<m, fft_bls24317.WithShift(sh))
+						shifted[k] = d
+					}
+					return d
+				}
+			}
+		case 'r':
+			// p.ReadFrom(bytes of the second object): the receiver has a past
+			if alt == nil {
+				return p, out, false
+			}
+			var buf bytes.Buffer
+			if _, err := alt.WriteTo(&buf); err != nil {
+				return p, out, false
+			}
+			total := buf.Len()
+			n, err := p.ReadFrom(&buf)
+			if err != nil || int(n) != total {
+				return p, out, false
+			}
 		case 'c':
 			if rest == "" {
 				p = p.Clone()
@@ -2569,7 +2999,22 @@ func (c *c20_bls24317) scriptD(p *iop_bls24317.Polynomial, script string, dom fu
 }
 
 func (c *c20_bls24317) Script(form, coeffs, script string) string {
-	p, ok := c.newPoly(form, coeffs)
+	dirty := int64(0)
+	if strings.HasPrefix(script, "D") {
+		// D<k> as the first token: the initial object lives in a buffer with k dirty entries behind it
+		first := script
+		if i := strings.IndexByte(script, ','); i >= 0 {
+			first, script = script[:i], script[i+1:]
+		} else {
+			script = "-"
+		}
+		var err error
+		dirty, err = strconv.ParseInt(first[1:], 16, 32)
+		if err != nil || dirty < 0 || dirty > 1<<12 {
+			return "bad-op"
+		}
+	}
+	p, ok := c.newPolyDirty(form, coeffs, int(dirty))
 	if !ok {
 		return "bad-op"
 	}
@@ -3030,11 +3475,25 @@ func (c *c20_bw6633) dump(p *iop_bw6633.Polynomial) string {
 	return c.showForm(p.Basis, p.Layout) + "/" + c20int(c.shiftOf(p)) + "/" + strconv.FormatInt(int64(p.Size()), 16) + "/" + c.show(p.Coefficients())
 }
 func (c *c20_bw6633) newPoly(form, coeffs string) (*iop_bw6633.Polynomial, bool) {
+	return c.newPolyDirty(form, coeffs, 0)
+}
+
+// the polynomial is built over a prefix view of a buffer that holds `dirty` more, non-zero, entries behind the view
+// (a chunk h[:n] of a larger vector, a truncated vector): spare capacity with old data
+func (c *c20_bw6633) newPolyDirty(form, coeffs string, dirty int) (*iop_bw6633.Polynomial, bool) {
 	f, ok := c.form(form)
 	if !ok {
 		return nil, false
 	}
 	v := c.vec(coeffs)
+	if dirty > 0 {
+		buf := make([]fr_bw6633.Element, len(v)+dirty)
+		copy(buf, v)
+		for i := len(v); i < len(buf); i++ {
+			buf[i].SetUint64(uint64(0xd1d100 + i))
+		}
+		v = buf[:len(v)]
+	}
 	return iop_bw6633.NewPolynomial(&v, f), true
 }
 
@@ -3049,6 +3508,9 @@ func (c *c20_bw6633) scriptD(p *iop_bw6633.Polynomial, script string, dom func(i
 	if script == "-" {
 		return p, out, true
 	}
+	var alt *iop_bw6633.Polynomial // second object of the script (N, H, x, r)
+	shifted := map[string]*fft_bw6633.Domain{}
+	baseDom := dom
 	guard := func(f func() string) (res string) {
 		defer func() {
 			if r := recover(); r != nil {
@@ -3092,6 +3554,63 @@ func (c *c20_bw6633) scriptD(p *iop_bw6633.Polynomial, script string, dom func(i
 		case 'Z':
 			z, _ := strconv.ParseInt(rest, 16, 64)
 			p.SetSize(int(z))
+		case 'H':
+			alt = p.ShallowClone()
+		case 'N':
+			// N<form>:<c0>.<c1>.…[+k]: a new object becomes current, the previous one becomes the second object
+			w := strings.SplitN(rest, ":", 2)
+			if len(w) != 2 {
+				return p, out, false
+			}
+			dirty := int64(0)
+			if i := strings.IndexByte(w[1], '+'); i >= 0 {
+				dirty, _ = strconv.ParseInt(w[1][i+1:], 16, 32)
+				w[1] = w[1][:i]
+			}
+			np, ok := c.newPolyDirty(w[0], strings.ReplaceAll(w[1], ".", ","), int(dirty))
+			if !ok {
+				return p, out, false
+			}
+			alt, p = p, np
+		case 'x':
+			if alt == nil {
+				return p, out, false
+			}
+			alt, p = p, alt
+		case 'd':
+			// the following conversions use domains with this coset shift (fft.WithShift)
+			s := parseBig(rest)
+			if s.Sign() == 0 || s.Cmp(c.Q()) >= 0 {
+				return p, out, false
+			}
+			if s.Cmp(c.MulGen()) == 0 {
+				dom = baseDom
+			} else {
+				sh := c.el(rest)
+				dom = func(m int) *fft_bw6633.Domain {
+					k := rest + "/" + strconv.Itoa(m)
+					d, ok := shifted[k]
+					if !ok {
+						d = fft_bw6633.NewDomain(uint64(1)<<m, fft_bw6633.WithShift(sh))
+						shifted[k] = d
+					}
+					return d
+				}
+			}
+		case 'r':
+			// p.ReadFrom(bytes of the second object): the receiver has a past
+			if alt == nil {
+				return p, out, false
+			}
+			var buf bytes.Buffer
+			if _, err := alt.WriteTo(&buf); err != nil {
+				return p, out, false
+			}
+			total := buf.Len()
+			n, err := p.ReadFrom(&buf)
+			if err != nil || int(n) != total {
+				return p, out, false
+			}
 		case 'c':
 			if rest == "" {
 				p = p.Clone()
@@ -3145,7 +3664,22 @@ func (c *c20_bw6633) scriptD(p *iop_bw6633.Polynomial, script string, dom func(i
 }
 
 func (c *c20_bw6633) Script(form, coeffs, script string) string {
-	p, ok := c.newPoly(form, coeffs)
+	dirty := int64(0)
+	if strings.HasPrefix(script, "D") {
+		// D<k> as the first token: the initial object lives in a buffer with k dirty entries behind it
+		first := script
+		if i := strings.IndexByte(script, ','); i >= 0 {
+			first, script = script[:i], script[i+1:]
+		} else {
+			script = "-"
+		}
+		var err error
+		dirty, err = strconv.ParseInt(first[1:], 16, 32)
+		if err != nil || dirty < 0 || dirty > 1<<12 {
+			return "bad-op"
+		}
+	}
+	p, ok := c.newPolyDirty(form, coeffs, int(dirty))
 	if !ok {
 		return "bad-op"
 	}
@@ -3606,11 +4140,25 @@ func (c *c20_bw6761) dump(p *iop_bw6761.Polynomial) string {
 	return c.showForm(p.Basis, p.Layout) + "/" + c20int(c.shiftOf(p)) + "/" + strconv.FormatInt(int64(p.Size()), 16) + "/" + c.show(p.Coefficients())
 }
 func (c *c20_bw6761) newPoly(form, coeffs string) (*iop_bw6761.Polynomial, bool) {
+	return c.newPolyDirty(form, coeffs, 0)
+}
+
+// the polynomial is built over a prefix view of a buffer that holds `dirty` more, non-zero, entries behind the view
+// (a chunk h[:n] of a larger vector, a truncated vector): spare capacity with old data
+func (c *c20_bw6761) newPolyDirty(form, coeffs string, dirty int) (*iop_bw6761.Polynomial, bool) {
 	f, ok := c.form(form)
 	if !ok {
 		return nil, false
 	}
 	v := c.vec(coeffs)
+	if dirty > 0 {
+		buf := make([]fr_bw6761.Element, len(v)+dirty)
+		copy(buf, v)
+		for i := len(v); i < len(buf); i++ {
+			buf[i].SetUint64(uint64(0xd1d100 + i))
+		}
+		v = buf[:len(v)]
+	}
 	return iop_bw6761.NewPolynomial(&v, f), true
 }
 
@@ -3625,6 +4173,9 @@ func (c *c20_bw6761) scriptD(p *iop_bw6761.Polynomial, script string, dom func(i
 	if script == "-" {
 		return p, out, true
 	}
+	var alt *iop_bw6761.Polynomial // second object of the script (N, H, x, r)
+	shifted := map[string]*fft_bw6761.Domain{}
+	baseDom := dom
 	guard := func(f func() string) (res string) {
 		defer func() {
 			if r := recover(); r != nil {
@@ -3668,6 +4219,63 @@ func (c *c20_bw6761) scriptD(p *iop_bw6761.Polynomial, script string, dom func(i
 		case 'Z':
 			z, _ := strconv.ParseInt(rest, 16, 64)
 			p.SetSize(int(z))
+		case 'H':
+			alt = p.ShallowClone()
+		case 'N':
+			// N<form>:<c0>.<c1>.…[+k]: a new object becomes current, the previous one becomes the second object
+			w := strings.SplitN(rest, ":", 2)
+			if len(w) != 2 {
+				return p, out, false
+			}
+			dirty := int64(0)
+			if i := strings.IndexByte(w[1], '+'); i >= 0 {
+				dirty, _ = strconv.ParseInt(w[1][i+1:], 16, 32)
+				w[1] = w[1][:i]
+			}
+			np, ok := c.newPolyDirty(w[0], strings.ReplaceAll(w[1], ".", ","), int(dirty))
+			if !ok {
+				return p, out, false
+			}
+			alt, p = p, np
+		case 'x':
+			if alt == nil {
+				return p, out, false
+			}
+			alt, p = p, alt
+		case 'd':
+			// the following conversions use domains with this coset shift (fft.WithShift)
+			s := parseBig(rest)
+			if s.Sign() == 0 || s.Cmp(c.Q()) >= 0 {
+				return p, out, false
+			}
+			if s.Cmp(c.MulGen()) == 0 {
+				dom = baseDom
+			} else {
+				sh := c.el(rest)
+				dom = func(m int) *fft_bw6761.Domain {
+					k := rest + "/" + strconv.Itoa(m)
+					d, ok := shifted[k]
+					if !ok {
+						d = fft_bw6761.NewDomain(uint64(1)<<m, fft_bw6761.WithShift(sh))
+						shifted[k] = d
+					}
+					return d
+				}
+			}
+		case 'r':
+			// p.ReadFrom(bytes of the second object): the receiver has a past
+			if alt == nil {
+				return p, out, false
+			}
+			var buf bytes.Buffer
+			if _, err := alt.WriteTo(&buf); err != nil {
+				return p, out, false
+			}
+			total := buf.Len()
+			n, err := p.ReadFrom(&buf)
+			if err != nil || int(n) != total {
+				return p, out, false
+			}
 		case 'c':
 			if rest == "" {
 				p = p.Clone()
@@ -3721,7 +4329,22 @@ func (c *c20_bw6761) scriptD(p *iop_bw6761.Polynomial, script string, dom func(i
 }
 
 func (c *c20_bw6761) Script(form, coeffs, script string) string {
-	p, ok := c.newPoly(form, coeffs)
+	dirty := int64(0)
+	if strings.HasPrefix(script, "D") {
+		// D<k> as the first token: the initial object lives in a buffer with k dirty entries behind it
+		first := script
+		if i := strings.IndexByte(script, ','); i >= 0 {
+			first, script = script[:i], script[i+1:]
+		} else {
+			script = "-"
+		}
+		var err error
+		dirty, err = strconv.ParseInt(first[1:], 16, 32)
+		if err != nil || dirty < 0 || dirty > 1<<12 {
+			return "bad-op"
+		}
+	}
+	p, ok := c.newPolyDirty(form, coeffs, int(dirty))
 	if !ok {
 		return "bad-op"
 	}
